@@ -214,6 +214,7 @@ def run(ctx):
                                    'Model/Graph.v cache snapshot = ExcelCompiler.cell_map values')
                     break
     unbounded_stream(ctx)
+    stored_errors_stream(ctx)
     shutil.rmtree(ctx.work, ignore_errors=True)
 
 
@@ -275,6 +276,153 @@ def unbounded_stream(ctx):
                     ctx.violation(case, "evaluate of a formula over an unbounded range differs from a "
                                         f"from-scratch compile with the current inputs: {got} != {want}")
                     break
+
+
+ERR_INPUTS = [0, 0, 1, 2, 4, -3, 5, 8, 'x']
+
+
+def gen_error_workbook(rng):
+    """Inputs; 1-3 formula cells that produce an error value for some of the input values (x/0, 1/x, text
+    arithmetic, MATCH without a hit, NA(), SQRT of a negative number, or a formula over an earlier one of these:
+    the error travels on); for each of them one or more cells that absorb the error (IFERROR, IFNA, ISERROR /
+    ISNA / ISERR alone or inside IF, COUNT over a range containing it); 0-2 cells computed from the absorbers.
+    Returns (wb, error cells)."""
+    wb = wbgen.WB()
+    n_in = rng.randrange(3, 6)
+    ins = [wb.add_input(rng.choice(ERR_INPUTS)) for _ in range(n_in)]
+
+    def ref(i):
+        return f'A{wb.nodes[i]["row"]}'
+
+    def add(text, deps):
+        return wb.add_formula(text, list(dict.fromkeys(deps)), [2, [0, 0]])      # oracle-only: no model formula
+    errs = []
+    for _ in range(rng.randrange(1, 4)):
+        p, q = rng.choice(ins), rng.choice(ins)
+        kind = rng.choice(['div', 'inv', 'text', 'match', 'na', 'sqrt', 'div', 'inv'])
+        if errs and rng.random() < 0.3:
+            e = rng.choice(errs)
+            text, deps = rng.choice([(f'={ref(e)}*2', [e]), (f'={ref(e)}+{ref(p)}', [e, p]), (f'=-{ref(e)}', [e])])
+        elif kind == 'div':
+            text, deps = f'={ref(p)}/{ref(q)}', [p, q]
+        elif kind == 'inv':
+            text, deps = f'=1/{ref(p)}', [p]
+        elif kind == 'text':
+            text, deps = f'={ref(p)}+{ref(q)}', [p, q]
+        elif kind == 'match':
+            r1 = rng.randrange(1, n_in)
+            r2 = rng.randrange(r1 + 1, n_in + 1)
+            text, deps = f'=MATCH({ref(p)},A{r1}:A{r2},0)', [p, wb.get_range(r1, r2)]
+        elif kind == 'na':
+            text, deps = f'=IF({ref(p)}>2,NA(),{ref(p)})', [p]
+        else:
+            text, deps = f'=SQRT({ref(p)})', [p]
+        errs.append(add(text, deps))
+    absorbers = []
+    for e in errs + [rng.choice(errs) for _ in range(rng.randrange(0, 3))]:
+        p = rng.choice(ins)
+        r, pr = ref(e), ref(p)
+        choice = rng.randrange(9)
+        if choice == 8:
+            r1, r2 = wb.nodes[errs[0]]['row'], wb.nodes[errs[-1]]['row']
+            if r1 == r2:
+                r1 -= 1
+            absorbers.append(add(f'=COUNT(A{r1}:A{r2})', [wb.get_range(r1, r2)]))
+            continue
+        text, deps = [(f'=IFERROR({r},-1)', [e]), (f'=IF(ISERROR({r}),"bad","good")', [e]), (f'=IFNA({r},0)', [e]),
+                      (f'=ISERROR({r})', [e]), (f'=ISNA({r})', [e]), (f'=ISERR({r})', [e]),
+                      (f'=IFERROR({r},0)+{pr}', [e, p]), (f'=IF(ISERROR({r}),{pr},{r}*2)', [e, p])][choice]
+        absorbers.append(add(text, deps))
+    for _ in range(rng.randrange(0, 3)):
+        a = rng.choice(absorbers)
+        r = ref(a)
+        add(rng.choice([f'={r}+10', f'={r}&"!"', f'=IF({r}=-1,"none",{r})']), [a])
+    return wb, errs
+
+
+def stored_errors_stream(ctx):
+    """Oracle-only (IFERROR & co. are not in Model/GraphExpr.v): models loaded from an .xlsx whose formula cells
+    carry their stored results, ERROR VALUES included (<c t="e">), the errors absorbed downstream.  First every
+    formula cell without dependants is evaluated (all cells are in the model, the intermediate error cells are
+    not evaluated themselves: they hold what the file stored); then histories of writes - mostly to precedents of
+    the error cells, making errors appear and disappear - and evaluations, mostly of dependants of the cell
+    written last.  Every evaluate must equal a from-scratch compile with the current inputs."""
+    from pycel import ExcelCompiler
+    rng = ctx.rng
+    ctx.extra['rule'] += (
+        "; stored-errors stream (oracle only): xlsx files with stored results in which 1-3 formula cells hold error "
+        "values (#DIV/0!, #VALUE!, #N/A, #NUM!, also passed on by arithmetic) that IFERROR / IFNA / IF(ISERROR) / "
+        "ISNA / ISERR / COUNT cells absorb; the outputs are evaluated first, then precedents of the error cells are "
+        "written (errors appear and disappear) before the error cells themselves are ever evaluated")
+    os.makedirs(ctx.work, exist_ok=True)
+    for k in range(ctx.n(120, 1200)):
+        for attempt in range(6):
+            wb, errs = gen_error_workbook(rng)
+            ref = ExcelCompiler(excel=wb.to_openpyxl())
+            results = {i: ref.evaluate(wb.nodes[i]['addr']) for i in wb.formulas()}
+            if any(results[e] in wbgen.ERROR_VALUES for e in errs):
+                break
+        desc = [(x['addr'], x.get('value'), x.get('text')) for x in wb.nodes]
+        path = os.path.join(ctx.work, f'err{k}.xlsx')
+        wbgen.write_xlsx_with_results(wb, results, path, error_type=rng.random() < 0.75)
+        comp = ExcelCompiler(filename=path)
+        os.remove(path)
+        inputs = {i: wb.nodes[i]['value'] for i in wb.inputs()}
+        used = {d for n in wb.nodes for d in n['deps']}
+        sinks = [i for i in wb.formulas() if i not in used]
+        above_errs = [i for i in wb.inputs() if any(e in wb.descendants(i) for e in errs)]
+        hist = []
+        plan = [('eval', i) for i in sinks]
+        pending, nsteps, failed = None, rng.randrange(6, 11), False
+        ctx.count(('stored_errors', k), kind='history:stored_errors',
+                  sample=dict(stream='stored_errors', workbook=desc, stored={wb.nodes[i]['addr']: v
+                                                                              for i, v in results.items()}))
+        while (plan or nsteps > 0) and not failed:
+            if plan:
+                op, n = plan.pop(0)
+            else:
+                nsteps -= 1
+                built = [i for i in wb.inputs() if wb.nodes[i]['addr'] in comp.cell_map]
+                if built and (pending is None and rng.random() < 0.8 or rng.random() < 0.3):
+                    pool = [i for i in built if i in above_errs]
+                    op, n = 'set', rng.choice(pool if pool and rng.random() < 0.8 else built)
+                elif pending is not None and rng.random() < 0.8:
+                    below = sorted(wb.descendants(pending))
+                    quiet = [i for i in below if i not in errs and wb.nodes[i]['kind'] == 'formula']
+                    op, n = 'eval', rng.choice(quiet if quiet and rng.random() < 0.8 else below or [pending])
+                else:
+                    op, n = 'eval', rng.randrange(len(wb.nodes))
+            addr = wb.nodes[n]['addr']
+            if op == 'set':
+                v = rng.choice([x for x in ERR_INPUTS if not same_py(x, inputs[n]) or type(x) is not type(inputs[n])])
+                hist.append(['set', addr, v])
+                try:
+                    comp.set_value(addr, v)
+                except Exception as exc:    # noqa: BLE001
+                    ctx.violation(dict(call='history', stream='stored_errors', workbook=desc, history=list(hist)),
+                                  f"set_value raises {type(exc).__name__}")
+                    break
+                inputs[n] = v
+                pending = n
+                continue
+            if addr not in comp.cell_map and any(h[0] == 'set' for h in hist):
+                continue          # a cell built after a write: the subject of C01-stored-late-build, not of this stream
+            if n != pending:
+                pending = None if rng.random() < 0.5 else pending
+            hist.append(['eval', addr])
+            case = dict(call='history', stream='stored_errors', workbook=desc,
+                        stored={wb.nodes[i]['addr']: v for i, v in results.items()}, history=list(hist))
+            try:
+                r = canon(comp.evaluate(addr))
+                want = fresh_value(wb, inputs, n)
+            except Exception as exc:    # noqa: BLE001
+                ctx.violation(case, f"evaluate raises {type(exc).__name__}: {exc}"[:200])
+                break
+            ctx.count(('stored_errors', k, len(hist)), kind='oracle:stored_errors')
+            if r != want:
+                ctx.violation(case, "evaluate differs from a from-scratch compile with the current inputs "
+                                    "(xlsx with stored error values)", impl=r, expected=want)
+                failed = True
 
 
 def same_py(a, b):
